@@ -1096,6 +1096,8 @@ func (c *FnCtx) checkPost(st *State, rets []*Term, site ast.Node) {
 	for i, en := range c.contract.Ensures {
 		g := c.specEvalAt(st, en.Expr, env, c.pre, site)
 		c.oblige(st, "post", c.fi.Decl, fmt.Sprintf("%d", i+1), en.Text, g)
+		// later clauses may use earlier ones (each is proved before it is used)
+		st.pc = append(st.pc, g)
 	}
 	c.checkFrame(st, site)
 	if c.contract.Fresh && len(rets) > 0 {
